@@ -23,9 +23,14 @@ let files_args (files : file list) = List.concat_map (fun f -> [ f.rel; hexf f.d
 (* ---------------------------------------------------------------- the cluster *)
 let int4 : lay = (4, ch 'i', 23)
 let text : lay = (-1, ch 'i', 25)
+(* a text column declared with attalign 'd' (as a domain or user type over a double-aligned varlena has): 4-byte-header values
+   are aligned to 8, which only pg_attribute says - the (type id, length) fallback says 4 - so a path that builds its columns
+   without attalign decodes such rows differently (seeded change C12-12).  Values stay texts, which every renderer models. *)
+let textd : lay = (-1, ch 'd', 25)
 let col_pool = [| "id"; "name"; "Email"; "note"; "qty"; "body"; "code"; "c8" |]
 let ascii r n = List.init n (fun _ -> byte_of_int (32 + rint r 95))
-let datum12 r ((_, _, typ) : lay) : datum =
+let datum12 r ((_, al, typ) : lay) : datum =
+  if typ = 25 && al = ch 'd' then (if rbool r then DLong (ascii r (pick r [| 3; 40; 130 |])) else DShort (ascii r (1 + rint r 24))) else
   if typ = 23 then
     (match rint r 9 with
      | 0 -> DNull | 1 -> DFixed (le32 0) | 2 -> DFixed (le32 0xffffffff) | 3 -> DFixed (le32 0x7fffffff) | 4 -> DFixed (le32 0x80000000)
@@ -45,7 +50,8 @@ let user_names = [| [ "users"; "Users"; "USERS" ]; [ "orders"; "accounts" ]; [ "
 let mk_rel r ~(fresh : unit -> int) (s : rspec) : rel =
   let oid = fresh () in
   let node = if not s.rstorage then 0 else if chance r 1 4 then oid else fresh () in
-  let ls = List.init s.rcols (fun i -> if i = 0 then (if chance r 3 4 then int4 else text) else if rbool r then int4 else text) in
+  let ls = List.init s.rcols (fun i -> if i = 0 then (if chance r 3 4 then int4 else text)
+                               else if i = 1 && chance r 1 4 then textd else if rbool r then int4 else text) in
   let names = take s.rcols (shuffle r (Array.to_list col_pool)) in
   { oid; name = s.rname; node; kind = s.rkind; cols = List.combine names ls; nums = List.init s.rcols (fun i -> i + 1);
     file = s.rfile && s.rstorage; nrows = s.rrows; syscols = chance r 1 6 }
@@ -112,10 +118,18 @@ let build_dir12 r ?users (p : prof12) ~(dir_oid : int) ~(tiny : bool) : dbdir * 
         let alive_rows = List.init x.nrows (fun _ -> VRow (mk_vhdr r ~alive:true, row12 r ls)) in
         let extra = if p.dead = 0 then [] else List.init (rint r 2) (fun _ -> VRow (mk_vhdr r ~alive:false, row12 r ls)) @ (if chance r 1 3 then [ stub r ] else []) in
         let items = sprinkle r extra alive_rows in
-        let pages = pack r ~fits:(page_fits cols idds) ~per_page:100 items in
+        (* one relation in four is spread over two or three blocks and its FIRST block holds only dead row versions (or is an
+           empty page): a path that cuts the file to "limit" pages before decoding returns too few rows (seeded change C12-10) *)
+        let lead = if alive_rows <> [] && chance r 1 4 then
+            (match rint r 3 with
+             | 0 -> [ HPage (mkpage r []) ]
+             | 1 -> [ HPage (mkpage r [ VRow (mk_vhdr r ~alive:false, row12 r ls); VRow (mk_vhdr r ~alive:false, row12 r ls) ]) ]
+             | _ -> [ HPage (mkpage r [ VRow (mk_vhdr r ~alive:false, row12 r ls) ]); HPage (mkpage r [ stub r ]) ])
+          else [] in
+        let pages = pack r ~fits:(page_fits cols idds) ~per_page:(if lead <> [] then 2 else 100) items in
         let heap = match pages with
           | [] -> (match rint r 3 with 0 -> [] | 1 -> [ HZero ] | _ -> [ HPage (mkpage r []) ])
-          | _ -> List.map (fun pg -> HPage pg) (take 1 pages) in
+          | _ -> lead @ List.map (fun pg -> HPage pg) (take (if lead <> [] then 2 else 1) pages) in
         Some { rf_node = zi x.node; rf_cols = cols; rf_heap = heap } end) rels in
   ({ dir_oid = zi dir_oid; dir_class; dir_attr; dir_files }, rels)
 
@@ -128,7 +142,12 @@ type world12 = {
   c : cluster; files : file list; acl : acluster; creds : authInfo list option; ctl : byte list option;
   hint : int; dbs : (int * string * bool) list; (* oid, name, template *) rels : (int * rel list) list }
 
-let db_sets = [| [ "app"; "App"; "APP" ]; [ "postgres"; "shop_db" ]; [ "mytemplate"; "Template1" ]; [ "x" ]; [ "App"; "postgres" ]; [ "postgres" ] |]
+(* names that sort after every ASCII letter bytewise ('~', '{') must still come BEFORE the template databases in
+   -list-db (seeded change C12-11: sort key "~" + name for templates) *)
+let db_sets = [| [ "app"; "App"; "APP" ]; [ "postgres"; "shop_db" ]; [ "mytemplate"; "Template1" ]; [ "x" ]; [ "App"; "postgres" ]; [ "postgres" ];
+                 [ "~tilde"; "postgres"; "zzz" ]; [ "~"; "a" ]; [ "{brace}"; "~~"; "postgres" ] |]
+(* (ASCII only: the text renderers pad with fmt's %-20s, which counts runes; the model pads bytes, so non-ASCII names are kept
+   out of the generated clusters - a limitation of the model of the String() renderers, not of the code) *)
 let build_world r ?(ndb = 2) ?(size = 1) ?(min_roles = 0) ?dbset ?users () : world12 =
   let (ver, hint) = pick r versions in
   let v16 = if hint >= 16 then true else if hint >= 12 then false else rbool r in
